@@ -45,8 +45,6 @@ PARSER = "preprocessing::parser::"
 TOK = "preprocessing::tokenizer::"
 README = os.path.join(os.environ.get("HCTL_REPO", "/repo"), "README.md")
 
-INLINE_PARSER = [PARSER + n for n in ("index_of_first", "index_of_first_hybrid", "index_of_first_binary_temp", "index_of_first_unary",
-                                      "is_hybrid", "is_binary_temporal", "is_unary")]
 
 
 def readme_precedence():
